@@ -91,6 +91,10 @@ def build_shot(p: Dict[str, Any]):
             if not hasattr(ud, "raw_value"):
                 ud = m.PreferredUnits.distance(ud)       # (attributes hold quantities: a bare number is only read by the constructor)
             wo.velocity, wo.direction_from, wo.until_distance = U.FPS(w[0]), U.Degree(w[1]), ud
+        elif i % 2 == 0 and 0.0 < w[2] < 1e7:
+            # a wind that states its end AND carries a custom `max_distance_feet` (the end a wind gets when none is stated) that
+            # is nearer than the stated end: the stated end is what counts
+            wo = m.Wind(U.FPS(w[0]), U.Degree(w[1]), until(i, w[2]), max_distance_feet=max(1.0, w[2] * 0.5))
         else:
             wo = m.Wind(U.FPS(w[0]), U.Degree(w[1]), until(i, w[2]))
         winds.append(wo)
